@@ -162,6 +162,39 @@ def concurrent_case(write_at_ms: int, ack_delay_ms: int, diag: str, alive: bool,
             "auto": False, "fed": fed_names, "hang": hang}
 
 
+def backlog_case(nframes: int) -> dict[str, Any]:
+    """The client is idle (between two requests) while the gateway sends a burst of messages for us, then an alive
+    check: D5 (answered in time whatever the client is doing) and afterwards D2/D3 (every message, in order)."""
+    rec = Recorder()
+    fed_names: list[str] = []
+
+    async def main() -> None:
+        gw = Gateway(rec)
+        tr = await connect(rec, gw, uri(act=1))
+        assert tr is not None
+        for _ in range(nframes):
+            fed_names.append("DiagUs")
+            gw.feed_named("DiagUs")
+        await settle()
+        fed_names.append("AliveReq")
+        gw.feed_named("AliveReq")
+        await asyncio.sleep(1.0)
+        for _ in range(nframes):
+            if await do_op(rec, tr, "read", 1.0, b"") != "ok":
+                break
+        await drain_and_finish(rec, tr)
+
+    hang = False
+    try:
+        vloop.run(main(), horizon=6000)
+    except (TimeoutError, vloop.BlockedForever):
+        hang = True
+        rec.ev.append({"e": "Final", "t": rec.ev[-1]["t"] if rec.ev else 0, "drained": False})
+        rec.ev.append({"e": "Hang", "t": rec.ev[-1]["t"]})
+    return {"cfg": CFG, "ev": rec.ev, "prog": f"backlog-while-idle/{nframes}", "auto": False, "fed": fed_names,
+            "hang": hang}
+
+
 def d1_case(act: int | None, ver: int | None, code: int | None, src: int = SRC, tgt: int = TGT) -> dict[str, Any]:
     rec = Recorder()
 
@@ -377,6 +410,9 @@ def run(tier: str, seed: int) -> Report:
             for diag in ("none", "before", "after"):
                 for alive in (False, True):
                     add(concurrent_case(write_at, ack_delay, diag, alive), "concurrent-read-write")
+    # ---- a burst while the client is idle, then an alive check
+    for n in ((10, 300) if tier == "quick" else (10, 300, 3000)):
+        add(backlog_case(n), "backlog-while-idle")
     # ---- spec -> code: simulated behaviours of the design layer replayed into the real transport
     nsim = 120 if tier == "quick" else 1500
     ndrift = 0
